@@ -61,3 +61,10 @@ func init() {
 		return err != nil && out != "", fmt.Sprintf("Eval returned error %v, but the imported package already printed %q", err, out)
 	}})
 }
+
+func init() {
+	verifProtocolScenarios = append(verifProtocolScenarios, verifScenario{"C15/interp.getVarDependencies/deps:through-function-bodies", func() (bool, string) {
+		out, err := verifOutput("package main\nvar a = f()\nvar b = 1\nfunc f() int { return b }\nfunc main() { println(a, b) }")
+		return out != "1 1\n", fmt.Sprintf("output %q (err %v), compiled Go prints \"1 1\\n\"", out, err)
+	}})
+}
